@@ -86,7 +86,7 @@ type plan struct {
 	deadlineQuick, deadlineThor time.Duration
 }
 
-var plans = map[string]plan{}
+var plans = map[string]plan{"C20": {race: true}}
 
 func planOf(id string) plan {
 	p, ok := plans[id]
@@ -174,7 +174,15 @@ func loadKnown() []knownFinding {
 
 func runWorker(bin string, args []string, gomaxprocs string) (*output, string, error) {
 	cmd := exec.Command(bin, args...)
-	cmd.Env = append(os.Environ(), "GOMAXPROCS="+gomaxprocs, "GORACE=halt_on_error=0 exitcode=0")
+	racelog := filepath.Join(verifDir, ".work", fmt.Sprintf("racelog-%d-%d", os.Getpid(), time.Now().UnixNano()))
+	cmd.Env = append(os.Environ(), "GOMAXPROCS="+gomaxprocs, "GORACE=halt_on_error=0 exitcode=0 log_path="+racelog, "PIKEMC_RACELOG="+racelog)
+	defer func() {
+		if m, _ := filepath.Glob(racelog + ".*"); m != nil {
+			for _, f := range m {
+				os.Remove(f)
+			}
+		}
+	}()
 	var so, se bytes.Buffer
 	cmd.Stdout = &so
 	cmd.Stderr = &se
@@ -222,9 +230,6 @@ func check(id, tier string) int {
 	errs := make([]string, n)
 	var wg sync.WaitGroup
 	gmp := "1"
-	if pl.race {
-		gmp = "2"
-	}
 	for i := 0; i < n; i++ {
 		wg.Add(1)
 		go func(i int) {
